@@ -8,6 +8,7 @@ import ProphyModel.Py
 import ProphyModel.PLayout
 import ProphyModel.Topo
 import ProphyModel.Expr
+import ProphyModel.Resolve
 import ProphyModel.Lemmas.ExprHost
 import ProphyModel.Cpp
 import ProphyModel.Text
@@ -280,7 +281,7 @@ def handle (st : DState) (j : Json) : Except String (DState × Json) := do
     | .error e =>
       let kind := match e with
         | .notFound _ => "notFound" | .cyclic _ => "cyclic" | .sameName _ => "sameName"
-        | .ambiguous _ _ => "ambiguous" | .tooDeep _ => "tooDeep"
+        | .ambiguous _ _ => "ambiguous" | .tooDeep _ => "tooDeep" | .twoNames _ => "twoNames"
       pure (st, Json.mkObj [("error", kind), ("alone", alone)])
   | "isar_members" =>
     let dim : Option Patch.Dim := match j.getObjVal? "dim" with
@@ -371,6 +372,22 @@ def handle (st : DState) (j : Json) : Except String (DState × Json) := do
         ("cpp", match host with | some b => res (Expr.evalCpp env b) | none => Json.str "syntax"),
         ("prec_safe", match ctree with | some a => Json.bool (Expr.precSafe a) | none => Json.null),
         ("int32_safe", match ctree with | some a => Json.bool (Expr.int32Safe env a) | none => Json.null)])
+  | "calc_resolve" =>
+    -- the name-resolution loop of calc (ProphyModel/Resolve.lean): vars = [[name, value]], value = int | string | null
+    let vars ← (← getArr j "vars").toList.mapM (fun e => do
+      let a ← e.getArr?
+      let v : Resolve.Val := match a[1]! with
+        | .str s => .name s
+        | .null => .none
+        | x => match x.getInt? with
+          | .ok i => .int i
+          | .error _ => .none
+      pure ((← a[0]!.getStr?), v))
+    match Resolve.resolve vars (← getStr j "name") with
+    | .ok v => pure (st, Json.mkObj [("value", Json.num (JsonNumber.fromInt v))])
+    | .error .selfDefined => pure (st, Json.mkObj [("error", "selfDefined")])
+    | .error .notFound => pure (st, Json.mkObj [("error", "notFound")])
+    | .error .fuel => pure (st, Json.mkObj [("error", "fuel")])
   | "prophyc_const" =>
     let text ← getStr j "text"
     let env ← envOfJson (← j.getObjVal? "env")
